@@ -111,6 +111,14 @@ CHECKS = {
         "rule": "non-trivial = the input is rejected (outcome is a diagnostic); accepted inputs count as trivial. distinct = distinct decoded cases. classes report the diagnostic's token type, long tails and error lines.",
         "assumptions": ["'never hangs' = returns within 120 s on inputs of at most a few KiB (>= 100x the measured cost)", "the goroutine-dump leak oracle never reports a scanner that is still runnable"],
     },
+    "C20": {
+        "parts": [{"pkg": "notation", "test": "TestC20", "subs": ["constructors", "associations"]}],
+        "technique": "differential property testing (rapid) of module-level vs class-level constructors over the cross product kind x argument form x element type x contents x notation position; exhaustive type-pair table for Association",
+        "level_text": "For each of Array, List, Set, Stack, Queue, Catalog, Map, every documented argument form (none, size/capacity, Go array, Go map, sequence, collator alone and with values, CDCN source, each with the notation absent, first or last), element types int64, uint64, float64, string, rune, bool, any and contents of 0..20 values spanning the default capacity, the module-level result must equal the class-level constructor's on the same data: contents, order (maps: mapping), capacity, collator. The source form must equal what ParseSource gives for the same text, element by element. Association[K,V](k, v) is checked for all 49 type pairs, identical ones included.",
+        "level_note": "Size/capacity 0 is not a documented argument and is not generated; an empty Go array is. For a Set built from source the expectation is a class-level set of the parsed values.",
+        "rule": "constructors: non-trivial = contents non-empty and the form carries data. associations: every case. distinct = distinct decoded cases.",
+        "assumptions": [],
+    },
     "C13": {
         "parts": [{"pkg": "seq", "test": "TestC13", "subs": ["history", "words", "ctor-sizes"], "thorough_shards": 8}],
         "technique": "model-based stateful property testing (rapid) against a top-first slice model + exhaustive enumeration of push/pop words and constructor sizes",
